@@ -90,6 +90,10 @@ class Face(ElementBase):
             corners = list(range(4))
 
         for corner in corners:
+            if corner < 0 or corner > 3:
+                raise FaceCreationError("Provide a corner index between 0 and 3", f"Given corner index: {corner}")
+
+        for corner in corners:
             self.edges[corner] = Line()
 
     def project_edge(self, corner: int, label: ProjectToType) -> None:
